@@ -331,6 +331,12 @@ class Orchestrator:  # thailint: ignore[srp]
         Returns:
             List of violations found in the file.
         """
+        return self._lint_file_with(file_path, None)
+
+    def _lint_file_with(
+        self, file_path: Path, rules: list[BaseLintRule] | None
+    ) -> list[Violation]:
+        """Run the given rules (default: all that apply) on a file unless it is excluded or ignored."""
         # Fast path: skip compiled files and common excluded directories
         if _is_hardcoded_excluded(file_path, self.project_root):
             return []
@@ -339,7 +345,8 @@ class Orchestrator:  # thailint: ignore[srp]
             return []
 
         language = detect_language(file_path)
-        rules = self._get_rules_for_file(file_path, language)
+        if rules is None:
+            rules = self._get_rules_for_file(file_path, language)
 
         # Add project_root to metadata for rules that need it (e.g., DRY linter cache)
         metadata = {**self.config, "_project_root": self.project_root}
@@ -451,8 +458,25 @@ class Orchestrator:  # thailint: ignore[srp]
             return self.lint_files(file_paths)
 
         violations = self._execute_parallel_linting(file_paths, effective_workers)
+        # What cross-file rules gathered in the workers stays in those processes:
+        # gather it here as well, so that finalize() sees every file
+        self._collect_cross_file_evidence(file_paths)
         violations.extend(self._finalize_rules())
         return violations
+
+    def _collect_cross_file_evidence(self, file_paths: list[Path]) -> None:
+        """Run check() of the rules that report in finalize() on every file, in this process.
+
+        Their per-file findings (if any) are already among the workers' results and are dropped.
+        """
+        self._ensure_rules_discovered()
+        rules = [
+            rule
+            for rule in self.registry.list_all()
+            if type(rule).finalize is not BaseLintRule.finalize
+        ]
+        for file_path in file_paths:
+            self._lint_file_with(file_path, rules)
 
     def _execute_parallel_linting(
         self, file_paths: list[Path], max_workers: int
